@@ -132,3 +132,73 @@ CONTRACTS.append(
              {"self": Obj("rf24:RF24", {}), "spi": Obj("spec.hw:SpiStub", {"hw": radio_schema()}), "csn": Const(None),
               "ce_pin": Obj("spec.hw:Pin", {"hw": radio_schema()})},
              requires=[R + "req_init"], ensures=[("inv", R + "ens_init_inv")], raises=(), policy=INIT_POL, props=["C09", "C03"]))
+
+
+# ---- C09.lemma.restore, mechanised over the PROVED reference functions -------------------------------
+# __exit__ == ref_exit (C09.exit) and __enter__ == ref_enter (C09.enter, from ANY register file).  Between an
+# object's blocks anything may happen to the radio -- other objects' whole blocks, any number of them: the
+# register file, the three address registers, CE and the FIFOs become ARBITRARY legal values (every call of
+# every object keeps the datasheet ranges: C03.f.state / .inv) -- while this object's shadows stay untouched
+# (no method reaches another object's fields).  Statement: after re-entry EVERY configuration register the
+# property lists holds what it held when the object left its previous block, PWR_UP apart (cleared by
+# __exit__, set by __enter__).  Nothing is enumerated: one foreign step of arbitrary effect covers 2, 3 or
+# any number of objects in any interleaving.  `needs_every_register` is the vacuity guard: with one
+# register left out of the foreign step's range assumption the statement must stay provable, with one
+# register left out of the COMPARISON it is trivially weaker -- so the guard instead drops Inv and must be
+# refutable.
+
+from pyvc.cdef import Lemma  # noqa: E402
+from pyvc.schema import Int, Bool, ByteArray, ListOf  # noqa: E402
+
+
+def cfg_regs(hw):
+    """the configuration the property names: CONFIG (CRC, IRQ mask, PRIM_RX; PWR_UP masked), EN_AA, EN_RXADDR,
+    SETUP_AW, SETUP_RETR, RF_CH, RF_SETUP, all pipe addresses, TX address, payload lengths, DYNPD, FEATURE"""
+    r = hw.reg
+    return (r[0] & 0x7D, r[1], r[2], r[3], r[4], r[5], r[6], bytes(hw.addr0), bytes(hw.addr1),
+            r[0x0C], r[0x0D], r[0x0E], r[0x0F], bytes(hw.txaddr),
+            r[0x11], r[0x12], r[0x13], r[0x14], r[0x15], r[0x16], r[0x1C], r[0x1D])
+
+
+def foreign_ok(regs2):
+    """what other objects can leave behind: any values within the datasheet ranges"""
+    return (regs2[0] <= 0x7F and regs2[1] <= 0x3F and regs2[2] <= 0x3F and regs2[3] <= 3 and regs2[5] <= 0x7F
+            and (regs2[6] & 0x40) == 0 and (regs2[7] & 0x8F) == 0
+            and regs2[0x11] <= 0x3F and regs2[0x12] <= 0x3F and regs2[0x13] <= 0x3F
+            and regs2[0x14] <= 0x3F and regs2[0x15] <= 0x3F and regs2[0x16] <= 0x3F
+            and (regs2[0x17] & 0xBF) == 0 and regs2[0x1C] <= 0x3F and regs2[0x1D] <= 7)
+
+
+def req_restore(a, regs2, a0, a1, tx, ce2):
+    return inv(a) and foreign_ok(regs2)
+
+
+def req_restore_no_inv(a, regs2, a0, a1, tx, ce2):
+    return shadows_wf(a) and foreign_ok(regs2)
+
+
+def lemma_restore(a, regs2, a0, a1, tx, ce2):
+    hw = a._spi.hw
+    ref_exit(a)
+    left = cfg_regs(hw)
+    down = (not hw.ce) and (hw.reg[0] & 2) == 0
+    # other objects' blocks: arbitrary effect on the shared radio
+    for i in range(0x1E):
+        hw.reg[i] = regs2[i]
+    for k in range(5):
+        hw.addr0[k] = a0[k]
+        hw.addr1[k] = a1[k]
+        hw.txaddr[k] = tx[k]
+    hw.ce = ce2
+    ref_enter(a)
+    return down and cfg_regs(hw) == left and (hw.reg[0] & 2) == 2 and inv(a)
+
+
+RESTORE_STATE = {"a": rf24_schema(), "regs2": ListOf([Int(0, 255) for _ in range(0x1E)]),
+                 "a0": ByteArray(5, 5), "a1": ByteArray(5, 5), "tx": ByteArray(5, 5), "ce2": Bool()}
+LEMMAS = [
+    Lemma("C09.lemma.restore", RESTORE_STATE, R + "lemma_restore", requires=[R + "req_restore"], props=["C09"],
+          note="exit -> arbitrary foreign activity on the shared radio -> enter restores every configuration register (PWR_UP apart)"),
+    Lemma("C09.lemma.restore.needs_inv", RESTORE_STATE, R + "lemma_restore", requires=[R + "req_restore_no_inv"], props=["C09"],
+          expect_sat=True, note="vacuity guard: an object whose shadows were NOT current when it left (Inv dropped) is not restored"),
+]
